@@ -37,8 +37,8 @@ class Witness:
 
 _TYPES = {"builtins.int": int, "builtins.float": float, "builtins.bool": bool, "builtins.str": str, "builtins.list": list,
           "builtins.tuple": tuple, "builtins.dict": dict, "builtins.set": set, "builtins.type": type,
-          "collections.abc.Mapping": dict, "collections.abc.Sequence": (list, tuple), "numbers.Number": (int, float),
-          "numbers.Real": (int, float), "types.NoneType": type(None)}
+          "collections.abc.Mapping": dict, "collections.abc.Sequence": (list, tuple), "numbers.Number": __import__("numbers").Number,
+          "numbers.Real": __import__("numbers").Real, "numbers.Integral": __import__("numbers").Integral, "types.NoneType": type(None)}
 _PURE = {
     "builtins.len": len, "builtins.set": set, "builtins.list": list, "builtins.tuple": tuple, "builtins.sorted": sorted,
     "builtins.range": range, "builtins.all": all, "builtins.any": any, "builtins.sum": sum, "builtins.min": min,
